@@ -3,3 +3,5 @@ package gen2
 import "github.com/PapaCharlie/go-restli/v2/restlicodec"
 
 var requiredVW = restlicodec.NewRequiredFields().Add("v", "w")
+
+var pairRequired = restlicodec.NewRequiredFields().Add("a", "b")
